@@ -162,6 +162,11 @@ func isSupportedType(v types.Type) bool {
 	return false
 }
 
+// sortTypes orders types taken from a map deterministically.
+func sortTypes(typs []types.Type) {
+	slices.SortFunc(typs, func(a, b types.Type) int { return strings.Compare(a.String(), b.String()) })
+}
+
 func isGenericType(p types.Type) bool {
 	switch typ := p.(type) {
 	case *types.Named:
@@ -227,12 +232,17 @@ func (d *definedVar) HasRefs() bool {
 
 // initialize scans and writes all supported functions in all non-internal packages used in the program
 func (t *trashGenerator) initialize(ssaProg *ssa.Program) {
-	for _, p := range ssaProg.AllPackages() {
+	// AllPackages and Members come from maps; sort them so that the same seed
+	// always picks the same globals and functions.
+	pkgs := ssaProg.AllPackages()
+	slices.SortFunc(pkgs, func(a, b *ssa.Package) int { return strings.Compare(a.Pkg.Path(), b.Pkg.Path()) })
+	for _, p := range pkgs {
 		if isInternal(p.Pkg.Path()) || p.Pkg.Name() == "main" {
 			continue
 		}
 		var pkgFuncs []*types.Func
-		for _, member := range p.Members {
+		for _, memberName := range slices.Sorted(maps.Keys(p.Members)) {
+			member := p.Members[memberName]
 			if !token.IsExported(member.Name()) {
 				continue
 			}
@@ -275,8 +285,8 @@ func (t *trashGenerator) convertExpr(from, to types.Type, expr ast.Expr) ast.Exp
 // chooseRandomVar returns a random local variable compatible with the passed type
 func (t *trashGenerator) chooseRandomVar(typ types.Type, vars map[string]*definedVar) ast.Expr {
 	var candidates []string
-	for name, d := range vars {
-		if canConvert(d.Type, typ) {
+	for _, name := range slices.Sorted(maps.Keys(vars)) {
+		if canConvert(vars[name].Type, typ) {
 			candidates = append(candidates, name)
 		}
 	}
@@ -326,6 +336,7 @@ func (t *trashGenerator) generateRandomConst(p types.Type, rand *mathrand.Rand) 
 	if len(candidates) == 0 {
 		panic(fmt.Errorf("unsupported type: %v", p))
 	}
+	sortTypes(candidates)
 
 	generatorType := candidates[rand.Intn(len(candidates))]
 	generator := valueGenerators[generatorType]
@@ -384,7 +395,8 @@ func (t *trashGenerator) chooseRandomMethod(vars map[string]*definedVar) (string
 	t.cacheMethods(vars)
 
 	groupedCandidates := make(map[types.Type][]string)
-	for name, v := range vars {
+	for _, name := range slices.Sorted(maps.Keys(vars)) {
+		v := vars[name]
 		typ := deref(v.Type)
 		if len(t.methodCache[typ]) == 0 {
 			continue
@@ -397,6 +409,10 @@ func (t *trashGenerator) chooseRandomMethod(vars map[string]*definedVar) (string
 	}
 
 	candidateTypes := slices.Collect(maps.Keys(groupedCandidates))
+	// Order the types by their first variable, which is unique to each of them.
+	slices.SortFunc(candidateTypes, func(a, b types.Type) int {
+		return strings.Compare(groupedCandidates[a][0], groupedCandidates[b][0])
+	})
 	candidateType := candidateTypes[t.rand.Intn(len(candidateTypes))]
 	candidates := groupedCandidates[candidateType]
 
@@ -492,7 +508,8 @@ func (t *trashGenerator) generateCall(vars map[string]*definedVar) ast.Stmt {
 // _garblecneca0kqjdklo, _garble8n2j5a0p1ples = (int32)(44), (uint32)(33)
 func (t *trashGenerator) generateAssign(vars map[string]*definedVar) ast.Stmt {
 	var varNames []string
-	for name, d := range vars {
+	for _, name := range slices.Sorted(maps.Keys(vars)) {
+		d := vars[name]
 		if d.HasRefs() && isSupportedType(d.Type) {
 			varNames = append(varNames, name)
 		}
